@@ -33,6 +33,8 @@ type World struct {
 	SpecErr []string
 	Files   []string // contract files
 	loops   map[*ssa.Function]*loopInfo
+	Known   map[string]*KnownFinding
+	OnlyProp string
 	debug   map[*ssa.Function]map[string][]*ssa.DebugRef
 }
 
@@ -98,8 +100,31 @@ func LoadWorld(repo, root string) (*World, error) {
 				return nil, err
 			}
 			for _, fs := range sf.Funcs {
-				if _, dup := w.Specs[fs.Key]; dup {
-					return nil, fmt.Errorf("duplicate contract for %s", fs.Key)
+				if old, dup := w.Specs[fs.Key]; dup {
+					// several blocks for one function are merged (generated skeleton + hand-written part)
+					old.Behaviors[0].Requires = append(old.Behaviors[0].Requires, fs.Behaviors[0].Requires...)
+					old.Behaviors[0].Ensures = append(old.Behaviors[0].Ensures, fs.Behaviors[0].Ensures...)
+					old.Behaviors = append(old.Behaviors, fs.Behaviors[1:]...)
+					for k, v := range fs.Loops {
+						if _, ok := old.Loops[k]; ok {
+							return nil, fmt.Errorf("duplicate loop %d contract for %s", k, fs.Key)
+						}
+						old.Loops[k] = v
+					}
+					for k, v := range fs.Options {
+						old.Options[k] = v
+					}
+					if fs.Mode != "" {
+						old.Mode = fs.Mode
+					}
+					if fs.Theory != "" {
+						old.Theory = fs.Theory
+					}
+					if fs.Layout != "" {
+						old.Layout = fs.Layout
+					}
+					old.Props = append(old.Props, fs.Props...)
+					continue
 				}
 				w.Specs[fs.Key] = fs
 			}
@@ -110,6 +135,14 @@ func LoadWorld(repo, root string) (*World, error) {
 		}
 	}
 	sort.Strings(w.Files)
+	if err := w.loadLayouts(); err != nil {
+		return nil, err
+	}
+	for _, k := range sortedKeys(w.Specs) {
+		if err := w.synthesise(w.Specs[k]); err != nil {
+			return nil, err
+		}
+	}
 	return w, nil
 }
 
